@@ -163,25 +163,25 @@ def rule_noshadow(ctx: Ctx):
     n = 0
     for ms in sm.methods.values():
         for m in ms:
-            for node in own_nodes(m.node):
-                tg = []
-                if isinstance(node, ast.Assign):
-                    tg = node.targets
-                elif isinstance(node, (ast.AnnAssign, ast.AugAssign)):
-                    tg = [node.target]
-                for t in tg:
-                    for sub in ast.walk(t):
-                        if isinstance(sub, ast.Attribute) and isinstance(sub.ctx, ast.Store) and isinstance(sub.value, ast.Name) and sub.value.id == "self":
-                            n += 1
-                            if sub.attr in ("current_state", "current_state_value"):
-                                continue  # property setters (C01.write / C10.access)
-                            if m.name in ("__init__", "__setstate__"):
-                                rep.check(sub.attr in SM_ATTRS, "C10.noshadow", m.loc(node),
-                                          f"constructor attribute `{sub.attr}` is one of the known per-instance fields (none of them holds the state)",
-                                          m.key, norm_stmt(node), known=sorted(SM_ATTRS))
-                            else:
-                                rep.violation("C10.noshadow", m.loc(node), f"`self.{sub.attr}` is assigned outside the constructor "
-                                              "(a cached copy of state can diverge from the model)", m.key, norm_stmt(node))
+            if m.name in ("__repr__", "__str__", "_repr_html_", "_repr_svg_", "_graph"):
+                continue
+            seen = set()
+            for p in ctx.paths(m, inline=None, exc_edges="none", unroll=1):
+                for e in p.of("store"):
+                    attr = e.x.get("attr")
+                    if not attr or show(e.term.value) != "self" or (attr, e.line) in seen:
+                        continue
+                    seen.add((attr, e.line))
+                    n += 1
+                    if attr in ("current_state", "current_state_value"):
+                        continue  # property setters (C01.write / C10.access)
+                    if m.name in ("__init__", "__setstate__"):
+                        rep.check(attr in SM_ATTRS, "C10.noshadow", e.loc(),
+                                  f"constructor attribute `{attr}` is one of the known per-instance fields (none of them holds the state)",
+                                  m.key, norm_stmt(e.node), known=sorted(SM_ATTRS))
+                    else:
+                        rep.violation("C10.noshadow", e.loc(), f"`self.{attr}` is assigned outside the constructor "
+                                      "(a cached copy of state can diverge from the model)", m.key, norm_stmt(e.node))
     rep.floor("C10.noshadow", "attribute stores in StateMachine", n, 8)
     for c in [k.base] + k.engines:
         for ms in c.methods.values():
